@@ -82,7 +82,7 @@ struct ProbeClass {
     sources: Vec<String>,
 }
 
-const PROBE_PRELUDE: &str = "#![allow(dead_code, unused_imports)]\nuse epserde::prelude::*;\nfn rt<T: Serialize + Deserialize + PartialEq + core::fmt::Debug>(v: &T) -> bool {\n    let mut c = <AlignedCursor<maligned::A64>>::new();\n    v.serialize(&mut c).unwrap();\n    c.set_position(0);\n    let f = T::deserialize_full(&mut c).unwrap();\n    let _e = T::deserialize_eps(c.as_bytes()).unwrap();\n    f == *v\n}\n";
+const PROBE_PRELUDE: &str = "#![allow(dead_code, unused_imports, non_snake_case, non_upper_case_globals, non_camel_case_types)]\nuse epserde::prelude::*;\nfn rt<T: Serialize + Deserialize + PartialEq + core::fmt::Debug>(v: &T) -> bool {\n    let mut c = <AlignedCursor<maligned::A64>>::new();\n    v.serialize(&mut c).unwrap();\n    c.set_position(0);\n    let f = T::deserialize_full(&mut c).unwrap();\n    let _e = T::deserialize_eps(c.as_bytes()).unwrap();\n    f == *v\n}\n";
 
 fn probe_classes() -> Vec<ProbeClass> {
     let bounds = ["Clone", "core::fmt::Debug", "PartialEq", "Clone + core::fmt::Debug"];
@@ -111,6 +111,57 @@ fn probe_classes() -> Vec<ProbeClass> {
         ProbeClass { sig: "derive-rejects:bound-on-enum-field-parameter", what: "O11: an inline bound on a type parameter that is the type of a field of an enum variant (enum E<A: Clone> { X, Y(A) }) is not replicated: the derived code does not compile", sources: o11 },
         ProbeClass { sig: "derive-rejects:zero-copy-parameter-with-borrowed-eps-type", what: "O12: a zero-copy generic struct whose field parameter is instantiated by an array, tuple or zero-copy struct (Z2<u32, [u16; 2]>) implements neither trait: the ZeroCopy bound is replicated onto the parameter's ε-copy type, a reference", sources: o12 },
     ]
+}
+
+const KEYWORDS: [&str; 54] = [
+    "as", "break", "const", "continue", "crate", "else", "enum", "extern", "false", "fn", "for", "if", "impl", "in", "let", "loop", "match", "mod", "move", "mut", "pub", "ref", "return", "self", "Self", "static", "struct", "super", "trait", "true", "type",
+    "unsafe", "use", "where", "while", "async", "await", "dyn", "abstract", "become", "box", "do", "final", "macro", "override", "priv", "typeof", "unsized", "virtual", "yield", "try", "gen", "union", "_",
+];
+
+/// Every identifier that occurs in the source of the derive crate (the names its generated code can possibly use
+/// for its own locals, constants and parameters are among them, whatever the current version of the macro is).
+fn harvested_identifiers() -> Vec<String> {
+    let src = std::fs::read_to_string(format!("{}/epserde-derive/src/lib.rs", crate::REPO)).unwrap_or_default();
+    let mut out = std::collections::BTreeSet::new();
+    let mut cur = String::new();
+    for c in src.chars().chain(std::iter::once(' ')) {
+        if c.is_ascii_alphanumeric() || c == '_' {
+            cur.push(c);
+        } else {
+            if !cur.is_empty() && !cur.chars().next().unwrap().is_ascii_digit() && !KEYWORDS.contains(&cur.as_str()) && cur.len() <= 40 {
+                out.insert(cur.clone());
+            }
+            cur.clear();
+        }
+    }
+    out.into_iter().collect()
+}
+
+/// Probe programs whose definitions use the given identifiers as field names (deep-copy struct, zero-copy struct,
+/// struct-like enum variant) and, for the upper-case ones, as names of const parameters that no field mentions.
+fn ident_probe(idents: &[String]) -> String {
+    let mut s = String::new();
+    let fields = |ty: &str| idents.iter().map(|i| format!("{}: {}", i, ty)).collect::<Vec<_>>().join(", ");
+    let vals = |f: &dyn Fn(usize) -> String| idents.iter().enumerate().map(|(k, i)| format!("{}: {}", i, f(k))).collect::<Vec<_>>().join(", ");
+    s.push_str(&format!("#[derive(Epserde, Clone, Debug, PartialEq)]\nstruct DS {{ {} }}\n", fields("u16")));
+    s.push_str(&format!("#[derive(Epserde, Clone, Copy, Debug, PartialEq)]\n#[repr(C)]\n#[zero_copy]\nstruct ZS {{ {} }}\n", fields("u8")));
+    s.push_str(&format!("#[derive(Epserde, Clone, Debug, PartialEq)]\nenum DE {{ Unit, Rec {{ {} }}, Tup(u8) }}\n", fields("u32")));
+    s.push_str(&format!("#[derive(Epserde, Clone, Copy, Debug, PartialEq)]\n#[repr(C)]\n#[zero_copy]\nenum ZE {{ Unit, Rec {{ {} }} }}\n", fields("u8")));
+    let upper: Vec<&String> = idents.iter().filter(|i| i.chars().all(|c| c.is_ascii_uppercase() || c.is_ascii_digit() || c == '_') && i.chars().any(|c| c.is_ascii_uppercase())).collect();
+    for (k, i) in upper.iter().enumerate() {
+        s.push_str(&format!("#[derive(Epserde, Clone, Debug, PartialEq)]\nstruct CD{k}<const {i}: u8> {{ x: u8 }}\n#[derive(Epserde, Clone, Copy, Debug, PartialEq)]\n#[repr(C)]\n#[zero_copy]\nstruct CZ{k}<const {i}: u8> {{ x: u8 }}\n#[derive(Epserde, Clone, Debug, PartialEq)]\nenum CE{k}<const {i}: u8> {{ A, B(u8) }}\n", k = k, i = i));
+    }
+    s.push_str("fn hashes<T: Serialize>(v: &T) -> Vec<u8> {\n    let mut c = <AlignedCursor<maligned::A64>>::new();\n    v.serialize(&mut c).unwrap();\n    c.as_bytes()[13..29].to_vec()\n}\n");
+    s.push_str("fn main() {\n    let mut ok = true;\n");
+    s.push_str(&format!("    ok &= rt(&DS {{ {} }});\n", vals(&|k| format!("{}u16", 1000 + k))));
+    s.push_str(&format!("    ok &= rt(&ZS {{ {} }});\n", vals(&|k| format!("{}u8", (k * 7 + 1) % 251))));
+    s.push_str(&format!("    ok &= rt(&DE::Rec {{ {} }});\n    ok &= rt(&DE::Unit) && rt(&DE::Tup(9));\n", vals(&|k| format!("{}u32", 70_000 + k))));
+    s.push_str(&format!("    ok &= rt(&ZE::Rec {{ {} }});\n", vals(&|k| format!("{}u8", (k * 5 + 3) % 251))));
+    for k in 0..upper.len() {
+        s.push_str(&format!("    ok &= rt(&CD{k}::<1> {{ x: 4 }}) && rt(&CZ{k}::<1> {{ x: 4 }}) && rt(&CE{k}::<1>::B(3));\n    ok &= hashes(&CD{k}::<1> {{ x: 4 }})[..8] != hashes(&CD{k}::<2> {{ x: 4 }})[..8];\n    ok &= hashes(&CZ{k}::<1> {{ x: 4 }})[..8] != hashes(&CZ{k}::<2> {{ x: 4 }})[..8];\n    ok &= hashes(&CE{k}::<1>::A)[..8] != hashes(&CE{k}::<2>::A)[..8];\n", k = k));
+    }
+    s.push_str("    println!(\"RESULT {}\", ok);\n}\n");
+    s
 }
 
 pub fn run(opts: &Opts, pi: &PropInfo) -> i32 {
@@ -225,6 +276,56 @@ pub fn run(opts: &Opts, pi: &PropInfo) -> i32 {
                     }
                 }
             }
+        }
+    }
+    // ---- identifiers: definitions whose fields / const parameters are named like anything the macro's own source
+    // mentions (a local of the generated code must never capture or shadow a user's name)
+    if opts.replay.is_none() {
+        let ids = harvested_identifiers();
+        agg.evaluations += ids.len() as u64;
+        *agg.classes.entry("identifiers harvested from the derive source and used as field / const-parameter names".into()).or_default() += ids.len() as u64;
+        let eval = |tag: &str, groups: &[Vec<String>]| -> Result<Vec<(Vec<String>, bool, String)>, String> {
+            let list: Vec<Probe> = groups.iter().enumerate().map(|(k, g)| Probe { name: format!("c05_ident_{}_{}", tag, k), source: format!("{}{}", PROBE_PRELUDE, ident_probe(g)) }).collect();
+            let res = probes::evaluate("c05id", &list, &|_| true)?;
+            Ok(groups.iter().zip(&list).map(|(g, p)| {
+                let r = &res[&p.name];
+                let ok = r.compiled && r.stdout.contains("RESULT true");
+                (g.clone(), ok, if r.compiled { format!("compiles, but the round trips / hash comparisons print {:?} (status {:?})", r.stdout.trim(), r.run_status) } else { probes::first_error_line(r) })
+            }).collect())
+        };
+        // all at once, then chunks of 16, then single identifiers of the failing chunks
+        let mut bad: Vec<(String, String)> = vec![];
+        match eval("all", &[ids.clone()]) {
+            Err(e) => infra = Some(e),
+            Ok(r) if r[0].1 => {}
+            Ok(_) => {
+                let chunks: Vec<Vec<String>> = ids.chunks(16).map(|c| c.to_vec()).collect();
+                match eval("chunk", &chunks) {
+                    Err(e) => infra = Some(e),
+                    Ok(rs) => {
+                        let singles: Vec<Vec<String>> = rs.iter().filter(|r| !r.1).flat_map(|r| r.0.iter().map(|i| vec![i.clone()])).collect();
+                        match eval("one", &singles) {
+                            Err(e) => infra = Some(e),
+                            Ok(rs) => {
+                                for (g, ok, why) in rs {
+                                    if !ok {
+                                        bad.push((g[0].clone(), why));
+                                    }
+                                }
+                            }
+                        }
+                    }
+                }
+            }
+        }
+        for (ident, why) in bad {
+            agg.nontrivial.insert(format!("ident:{}", ident));
+            agg.failures.push(json!({
+                "subject": format!("identifier `{}`", ident), "signature": format!("derive-identifier-collision:{}", ident),
+                "message": format!("definitions that name a field (or an unused const parameter) `{}` are not handled by the derive: {}", ident, why),
+                "val_shown": ident_probe(&[ident.clone()]),
+                "env": {"probe_source": format!("{}{}", PROBE_PRELUDE, ident_probe(&[ident.clone()]))},
+            }));
         }
     }
     props::finish(opts, pi, agg, start, infra)
